@@ -561,4 +561,315 @@ fn main() {
     gen_resolution(&repo, &out);
     gen_err_consts(&repo, &out);
     gen_error_enums(&repo, &out);
+    gen_token_fns(&repo, &out);
+    gen_seed_sizes(&repo, &out);
+}
+// ---------------------------------------------------------------------------------------------
+// Boolean predicates of generic-token, translated expression by expression into the small Lean
+// embedding `SplModel/RustExpr.lean` (`Generated/TokenFns.lean`).  Only the expression forms that
+// occur are supported; anything else fails closed, so a rewrite into an unsupported form breaks the
+// tie (reported as such) instead of silently keeping a stale model.
+// ---------------------------------------------------------------------------------------------
+
+struct FnCtx<'a> {
+    module: &'a str,                 // "token" | "token_2022" | "lib"
+    slices: Vec<String>,             // parameters of type &[u8]
+    nats: Vec<String>,               // parameters of type usize / u8
+    keys: Vec<String>,               // parameters of type &Pubkey
+    consts: &'a std::collections::BTreeSet<String>, // names available in Gen.Token
+    fns: &'a std::collections::BTreeMap<String, String>, // rust path (joined by ::) -> Lean name
+}
+
+fn path_str(p: &syn::Path) -> String {
+    p.segments.iter().map(|s| s.ident.to_string()).collect::<Vec<_>>().join("::")
+}
+
+fn unparen(e: &syn::Expr) -> &syn::Expr {
+    match e {
+        syn::Expr::Paren(p) => unparen(&p.expr),
+        syn::Expr::Group(g) => unparen(&g.expr),
+        syn::Expr::Reference(r) => unparen(&r.expr),
+        _ => e,
+    }
+}
+
+/// a numeric (usize / u8) expression -> Lean term of type `Res Nat`
+fn tr_num(e: &syn::Expr, cx: &FnCtx) -> String {
+    let e = unparen(e);
+    match e {
+        syn::Expr::Lit(l) => match &l.lit {
+            syn::Lit::Int(i) => format!("(RX.lit {})", i.base10_parse::<u128>().unwrap_or_else(|_| fail("integer literal"))),
+            _ => fail("unsupported literal in a numeric position"),
+        },
+        syn::Expr::Path(p) => {
+            let name = p.path.segments.last().unwrap().ident.to_string();
+            if cx.nats.contains(&name) || cx.consts.contains(&name) {
+                format!("(RX.lit {name})")
+            } else {
+                fail(&format!("numeric name `{name}` is neither a parameter nor an extracted constant"))
+            }
+        }
+        syn::Expr::MethodCall(m) if m.method == "len" && m.args.is_empty() => {
+            format!("(RX.len {})", tr_slice(&m.receiver, cx))
+        }
+        syn::Expr::Index(ix) => format!("(RX.index {} {})", tr_slice(&ix.expr, cx), tr_num(&ix.index, cx)),
+        // *x.get(i).unwrap_or(&d)
+        syn::Expr::Unary(u) if matches!(u.op, syn::UnOp::Deref(_)) => {
+            if let syn::Expr::MethodCall(m) = unparen(&u.expr) {
+                if m.method == "unwrap_or" && m.args.len() == 1 {
+                    if let syn::Expr::MethodCall(g) = unparen(&m.receiver) {
+                        if g.method == "get" && g.args.len() == 1 {
+                            return format!("(RX.getOr {} {} {})", tr_slice(&g.receiver, cx), tr_num(&g.args[0], cx), tr_num(&m.args[0], cx));
+                        }
+                    }
+                }
+            }
+            fail("unsupported dereference in a numeric position")
+        }
+        _ => fail(&format!("unsupported numeric expression form in {}", cx.module)),
+    }
+}
+
+fn tr_slice(e: &syn::Expr, cx: &FnCtx) -> String {
+    match unparen(e) {
+        syn::Expr::Path(p) => {
+            let name = p.path.segments.last().unwrap().ident.to_string();
+            if cx.slices.contains(&name) { name } else { fail(&format!("`{name}` is not a byte-slice parameter")) }
+        }
+        _ => fail("unsupported byte-slice expression"),
+    }
+}
+
+fn is_bool_op(op: &syn::BinOp) -> bool { matches!(op, syn::BinOp::And(_) | syn::BinOp::Or(_)) }
+
+/// a program-id expression: `*program_id` or `token::id()` -> Lean term of type `Bytes`
+fn tr_key(e: &syn::Expr, cx: &FnCtx) -> Option<String> {
+    match unparen(e) {
+        syn::Expr::Unary(u) if matches!(u.op, syn::UnOp::Deref(_)) => {
+            if let syn::Expr::Path(p) = unparen(&u.expr) {
+                let n = p.path.segments.last().unwrap().ident.to_string();
+                if cx.keys.contains(&n) { return Some(n); }
+            }
+            None
+        }
+        syn::Expr::Call(c) if c.args.is_empty() => {
+            if let syn::Expr::Path(p) = &*c.func {
+                return match path_str(&p.path).as_str() {
+                    "token::id" => Some("TOKEN_ID".into()),
+                    "token_2022::id" => Some("TOKEN_2022_ID".into()),
+                    _ => None,
+                };
+            }
+            None
+        }
+        _ => None,
+    }
+}
+
+/// a boolean expression -> Lean term of type `Res Bool`
+fn tr_bool(e: &syn::Expr, cx: &FnCtx) -> String {
+    let e = unparen(e);
+    match e {
+        syn::Expr::Binary(b) if is_bool_op(&b.op) => {
+            let f = if matches!(b.op, syn::BinOp::And(_)) { "RX.and" } else { "RX.or" };
+            format!("({f} {} (fun _ => {}))", tr_bool(&b.left, cx), tr_bool(&b.right, cx))
+        }
+        syn::Expr::Binary(b) => {
+            if let (Some(l), Some(r)) = (tr_key(&b.left, cx), tr_key(&b.right, cx)) {
+                return match b.op {
+                    syn::BinOp::Eq(_) => format!("(RX.eqBytes {l} {r})"),
+                    syn::BinOp::Ne(_) => format!("(RX.not (RX.eqBytes {l} {r}))"),
+                    _ => fail("unsupported comparison of program ids"),
+                };
+            }
+            let f = match b.op {
+                syn::BinOp::Eq(_) => "RX.eq", syn::BinOp::Ne(_) => "RX.ne", syn::BinOp::Lt(_) => "RX.lt",
+                syn::BinOp::Le(_) => "RX.le", syn::BinOp::Gt(_) => "RX.gt", syn::BinOp::Ge(_) => "RX.ge",
+                _ => fail("unsupported binary operator in a predicate"),
+            };
+            format!("({f} {} {})", tr_num(&b.left, cx), tr_num(&b.right, cx))
+        }
+        syn::Expr::Unary(u) if matches!(u.op, syn::UnOp::Not(_)) => format!("(RX.not {})", tr_bool(&u.expr, cx)),
+        syn::Expr::Call(c) => {
+            let syn::Expr::Path(p) = &*c.func else { fail("unsupported call") };
+            let key = path_str(&p.path);
+            // unqualified names resolve inside the current module first, then in `token` (what token_2022 imports)
+            let lean = cx.fns.get(&format!("{}::{}", cx.module, key)).or_else(|| cx.fns.get(&key)).or_else(|| cx.fns.get(&format!("token::{key}")))
+                .unwrap_or_else(|| fail(&format!("call to `{key}` in {}: not one of the translated functions", cx.module)));
+            let args: Vec<String> = c.args.iter().map(|a| match unparen(a) {
+                syn::Expr::Path(p) => {
+                    let n = p.path.segments.last().unwrap().ident.to_string();
+                    if cx.slices.contains(&n) || cx.nats.contains(&n) || cx.consts.contains(&n) || cx.keys.contains(&n) { n } else { fail(&format!("argument `{n}` of `{key}`")) }
+                }
+                _ => fail("unsupported argument form"),
+            }).collect();
+            format!("({lean} {})", args.join(" "))
+        }
+        _ => fail(&format!("unsupported boolean expression form in {}", cx.module)),
+    }
+}
+
+fn single_expr(block: &syn::Block, what: &str) -> syn::Expr {
+    if block.stmts.len() != 1 { fail(&format!("{what}: body is not a single expression")) }
+    match &block.stmts[0] {
+        syn::Stmt::Expr(e, None) => e.clone(),
+        _ => fail(&format!("{what}: body is not a single tail expression")),
+    }
+}
+
+fn params(sig: &syn::Signature, what: &str) -> (Vec<String>, Vec<String>, Vec<String>, String) {
+    let (mut slices, mut nats, mut keys, mut binder) = (vec![], vec![], vec![], String::new());
+    for a in &sig.inputs {
+        let syn::FnArg::Typed(t) = a else { fail(&format!("{what}: receiver parameter")) };
+        let syn::Pat::Ident(id) = &*t.pat else { fail(&format!("{what}: parameter pattern")) };
+        let name = id.ident.to_string();
+        let ty = quote_type(&t.ty);
+        match ty.as_str() {
+            "&[u8]" => { slices.push(name.clone()); binder.push_str(&format!(" ({name} : Bytes)")); }
+            "usize" | "u8" => { nats.push(name.clone()); binder.push_str(&format!(" ({name} : Nat)")); }
+            "&Pubkey" => { keys.push(name.clone()); binder.push_str(&format!(" ({name} : Bytes)")); }
+            other => fail(&format!("{what}: parameter type `{other}` is not supported")),
+        }
+    }
+    (slices, nats, keys, binder)
+}
+
+fn quote_type(t: &syn::Type) -> String {
+    match t {
+        syn::Type::Reference(r) => format!("&{}", quote_type(&r.elem)),
+        syn::Type::Slice(s) => format!("[{}]", quote_type(&s.elem)),
+        syn::Type::Path(p) => p.path.segments.last().unwrap().ident.to_string(),
+        _ => "?".into(),
+    }
+}
+
+fn find_free_fn<'a>(f: &'a syn::File, name: &str) -> Option<&'a syn::ItemFn> {
+    f.items.iter().find_map(|it| match it { syn::Item::Fn(x) if x.sig.ident == name => Some(x), _ => None })
+}
+
+fn find_impl_fn<'a>(f: &'a syn::File, ty: &str, name: &str) -> Option<&'a syn::ImplItemFn> {
+    for it in &f.items {
+        if let syn::Item::Impl(i) = it {
+            if let syn::Type::Path(tp) = &*i.self_ty {
+                if tp.path.segments.last().unwrap().ident == ty {
+                    for ii in &i.items {
+                        if let syn::ImplItem::Fn(m) = ii { if m.sig.ident == name { return Some(m); } }
+                    }
+                }
+            }
+        }
+    }
+    None
+}
+
+fn gen_token_fns(repo: &Path, out: &Path) {
+    let tok = parse_file(&repo.join("generic-token/src/token.rs"));
+    let t22 = parse_file(&repo.join("generic-token/src/token_2022.rs"));
+    let lib = parse_file(&repo.join("generic-token/src/lib.rs"));
+    let consts: std::collections::BTreeSet<String> = [
+        "SPL_TOKEN_ACCOUNT_MINT_OFFSET", "SPL_TOKEN_ACCOUNT_OWNER_OFFSET", "SPL_TOKEN_ACCOUNT_AMOUNT_OFFSET", "SPL_TOKEN_ACCOUNT_STATE_OFFSET",
+        "SPL_TOKEN_ACCOUNT_LENGTH", "SPL_TOKEN_MINT_SUPPLY_OFFSET", "SPL_TOKEN_MINT_DECIMALS_OFFSET", "SPL_TOKEN_MINT_IS_INITIALIZED_OFFSET",
+        "SPL_TOKEN_MINT_LENGTH", "ACCOUNTTYPE_ACCOUNT", "ACCOUNTTYPE_MINT", "SPL_TOKEN_MULTISIG_LENGTH",
+    ].iter().map(|s| s.to_string()).collect();
+    // rust path -> Lean name, in emission (dependency) order
+    let plan: Vec<(&str, &syn::File, Option<&str>, &str)> = vec![
+        ("token", &tok, None, "is_initialized_token_data"),
+        ("token", &tok, None, "is_initialized_account"),
+        ("token", &tok, None, "is_initialized_mint"),
+        ("token", &tok, Some("Account"), "valid_account_data"),
+        ("token", &tok, Some("Mint"), "valid_account_data"),
+        ("token_2022", &t22, Some("Account"), "valid_account_data"),
+        ("token_2022", &t22, Some("Mint"), "valid_account_data"),
+        ("lib", &lib, None, "is_known_spl_token_id"),
+    ];
+    let mut fns = std::collections::BTreeMap::new();
+    for (m, _, ty, f) in &plan {
+        let rust = match ty { Some(t) => format!("{m}::{t}::{f}"), None => format!("{m}::{f}") };
+        let lean = match ty { Some(t) => format!("{m}_{t}_{f}"), None => format!("{m}_{f}") };
+        fns.insert(rust, lean);
+    }
+    let mut s = String::new();
+    writeln!(s, "-- GENERATED by /verif/harness `extract` from /repo/generic-token/src/{{token,token_2022,lib}}.rs — do not edit").unwrap();
+    writeln!(s, "-- every boolean predicate below is the source expression, translated form by form (see SplModel/RustExpr.lean)").unwrap();
+    writeln!(s, "import SplModel.RustExpr\nimport SplModel.Generated.TokenConsts\nnamespace Gen.TokenFns\nopen Gen.Token\n").unwrap();
+    for (m, file, ty, f) in &plan {
+        let what = match ty { Some(t) => format!("{m}::{t}::{f}"), None => format!("{m}::{f}") };
+        let (sig, block) = match ty {
+            Some(t) => { let x = find_impl_fn(file, t, f).unwrap_or_else(|| fail(&format!("fn {what} not found"))); (x.sig.clone(), x.block.clone()) }
+            None => { let x = find_free_fn(file, f).unwrap_or_else(|| fail(&format!("fn {what} not found"))); (x.sig.clone(), (*x.block).clone()) }
+        };
+        let (slices, nats, keys, binder) = params(&sig, &what);
+        let cx = FnCtx { module: m, slices, nats, keys, consts: &consts, fns: &fns };
+        let body = tr_bool(&single_expr(&block, &what), &cx);
+        writeln!(s, "/-- `{what}` -/\ndef {}{binder} : Res Bool :=\n  {body}\n", fns[&what]).unwrap();
+    }
+    writeln!(s, "end Gen.TokenFns").unwrap();
+    write_if_changed(&out.join("TokenFns.lean"), &s);
+}
+
+// ---------------------------------------------------------------------------------------------
+// Packed sizes of seed / key-data configs: the arms of the two `tlv_size` functions, evaluated.
+// ---------------------------------------------------------------------------------------------
+fn variant_of(p: &syn::Pat) -> Option<String> {
+    match p {
+        syn::Pat::Path(x) => Some(x.path.segments.last()?.ident.to_string()),
+        syn::Pat::Struct(x) => Some(x.path.segments.last()?.ident.to_string()),
+        syn::Pat::TupleStruct(x) => Some(x.path.segments.last()?.ident.to_string()),
+        syn::Pat::Reference(r) => variant_of(&r.pat),
+        _ => None,
+    }
+}
+
+/// (variant, value) for every arm of `impl <ty> { fn tlv_size }`; an arm whose body is not a constant
+/// expression must be `<something>.saturating_add(<const>)` and yields the constant (the per-item overhead).
+fn size_arms(file: &syn::File, ty: &str, what: &str) -> Vec<(String, i128, bool)> {
+    let f = find_impl_fn(file, ty, "tlv_size").unwrap_or_else(|| fail(&format!("{what}: fn tlv_size not found")));
+    let body = single_expr(&f.block, what);
+    let syn::Expr::Match(m) = unparen(&body) else { fail(&format!("{what}: tlv_size is not a single match")) };
+    let env = Consts::new();
+    let mut out = vec![];
+    for arm in &m.arms {
+        let v = variant_of(&arm.pat).unwrap_or_else(|| fail(&format!("{what}: match arm pattern")));
+        if let Some(n) = eval(&arm.body, &env) {
+            out.push((v, n, false));
+        } else if let syn::Expr::MethodCall(mc) = unparen(&arm.body) {
+            if mc.method == "saturating_add" && mc.args.len() == 1 {
+                let n = eval(&mc.args[0], &env).unwrap_or_else(|| fail(&format!("{what}: overhead of {v} not constant")));
+                out.push((v, n, true));
+            } else {
+                fail(&format!("{what}: arm {v} is neither a constant nor `….saturating_add(<const>)`"))
+            }
+        } else {
+            fail(&format!("{what}: arm {v} is neither a constant nor `….saturating_add(<const>)`"))
+        }
+    }
+    out
+}
+
+fn gen_seed_sizes(repo: &Path, out: &Path) {
+    let seeds = parse_file(&repo.join("tlv-account-resolution/src/seeds.rs"));
+    let kd = parse_file(&repo.join("tlv-account-resolution/src/pubkey_data.rs"));
+    let mut s = String::new();
+    writeln!(s, "-- GENERATED by /verif/harness `extract` from /repo/tlv-account-resolution/src/{{seeds,pubkey_data}}.rs — do not edit").unwrap();
+    writeln!(s, "-- the arms of `Seed::tlv_size` and `PubkeyData::tlv_size`, constant expressions evaluated").unwrap();
+    writeln!(s, "namespace Gen.Seeds").unwrap();
+    let want = [("Uninitialized", "SEED_SIZE_UNINITIALIZED"), ("Literal", "SEED_LITERAL_OVERHEAD"), ("InstructionData", "SEED_SIZE_INSTRUCTION_DATA"),
+                ("AccountKey", "SEED_SIZE_ACCOUNT_KEY"), ("AccountData", "SEED_SIZE_ACCOUNT_DATA")];
+    let arms = size_arms(&seeds, "Seed", "Seed::tlv_size");
+    if arms.len() != want.len() { fail("Seed::tlv_size: unexpected number of arms") }
+    for (v, name) in want {
+        let a = arms.iter().find(|x| x.0 == v).unwrap_or_else(|| fail(&format!("Seed::tlv_size: no arm for {v}")));
+        if a.2 != (v == "Literal") { fail(&format!("Seed::tlv_size: arm {v} has an unexpected shape")) }
+        writeln!(s, "def {name} : Nat := {}", a.1).unwrap();
+    }
+    let want = [("Uninitialized", "KD_SIZE_UNINITIALIZED"), ("InstructionData", "KD_SIZE_INSTRUCTION_DATA"), ("AccountData", "KD_SIZE_ACCOUNT_DATA")];
+    let arms = size_arms(&kd, "PubkeyData", "PubkeyData::tlv_size");
+    if arms.len() != want.len() { fail("PubkeyData::tlv_size: unexpected number of arms") }
+    for (v, name) in want {
+        let a = arms.iter().find(|x| x.0 == v).unwrap_or_else(|| fail(&format!("PubkeyData::tlv_size: no arm for {v}")));
+        if a.2 { fail(&format!("PubkeyData::tlv_size: arm {v} is not a constant")) }
+        writeln!(s, "def {name} : Nat := {}", a.1).unwrap();
+    }
+    writeln!(s, "end Gen.Seeds").unwrap();
+    write_if_changed(&out.join("SeedConsts.lean"), &s);
 }
